@@ -1,17 +1,23 @@
-import sys, time
+import sys, time, collections
 sys.path.insert(0, "/verif")
 from pyvc.engine import Engine
 import pyvc.specfuncs, pyvc.library  # noqa
 import contracts  # noqa
 from pyvc.solve import discharge
 e = Engine()
-names = sys.argv[1:] or ["pyvolutionary.helpers.sort_by_cost"]
+names = [a for a in sys.argv[1:] if not a.startswith("-")]
 t0=time.time()
 for n in names:
     e.verify(n)
 print("paths", e.paths_run, "obligations", len(e.obligations), "undecided", e.undecided, "gen %.2fs"%(time.time()-t0))
-res = discharge(e.obligations, 10000)
+res = discharge(e.obligations, int(10000))
+agg = collections.OrderedDict()
 for k, ob in e.obligations.items():
     r = res[k]
     ok = (r["status"] == "sat") if ob.expect_sat else (r["status"] == "unsat")
-    print("OK " if ok else "FAIL", ob.name, ob.case, r["status"], "%.2f" % r["time"], r["backend"], ob.clause[:90] if not ok else "")
+    a = agg.setdefault((ob.name, ob.case), [0, 0, set(), 0.0])
+    a[0 if ok else 1] += 1; a[2].add(r["status"]); a[3] = max(a[3], r["time"])
+for (n, c), (ok, bad, sts, t) in agg.items():
+    if bad or "-v" in sys.argv:
+        print("FAIL" if bad else "OK  ", n, c, f"ok={ok} bad={bad}", sorted(sts), "%.1fs" % t)
+print("total names", len(agg), "failing", sum(1 for v in agg.values() if v[1]))
